@@ -326,6 +326,11 @@ Definition net_send_configs_code : list dstmt :=
 (* driver/network/acquirepriv.go Driver.AcquirePriv *)
 Definition acquire_priv_code : list dstmt :=
   [DAssign "ok" "ok of d.PrivilegeLevels[target]"; DIf (DNot (DAtom "ok")) [DReturn "error"] []; DRange "_" "forever" [DCall "d.Driver.GetPrompt()"; DIf (DNot (DEq "err" "nil")) [DReturn "err"] []; DCall "d.processAcquirePriv( target, currentPrompt, )"; DIf (DNot (DEq "err" "nil")) [DReturn "err"] []; DSwitch "action" [(["noAction"], [DReturn "nil"]); (["escalateAction"], [DAssign "err" "d.escalate(next)"]); (["deescalateAction"], [DAssign "err" "d.deescalate(next)"])]; DIf (DNot (DEq "err" "nil")) [DReturn "err"] []; DCall "count++"; DIf (DAtom "count > len(d.PrivilegeLevels)*2") [DReturn "error"] []]].
+(* driver/network/acquirepriv.go Driver.escalate, Driver.deescalate *)
+Definition escalate_code : list dstmt :=
+  [DAssign "p" "d.PrivilegeLevels[target]"; DIf (DOr (DNot (DAtom "p.EscalateAuth")) (DEq "d.AuthSecondary" """""")) [DIf (DEq "d.AuthSecondary" """""") [] []; DCall "d.Driver.Channel.SendInput(p.Escalate)"] [DAssign "events" "[]*channel.SendInteractiveEvent{ { ChannelInput: p.Escalate, ChannelResponse: p.EscalatePrompt, HideInput: false, }, { ChannelInput: d.AuthSecondary, ChannelResponse: p.Pattern, HideInput: true, }, }"; DCall "d.Driver.Channel.SendInteractive( events, func(o interface{}) error { a, ok := o.(*channel.OperationOptions) if ok { a.CompletePatterns = []*regexp.Regexp{ d.PrivilegeLevels[p.PreviousPriv].patternRe, p.patternRe, } return nil } return util.ErrIgnoredOption }, )"]; DReturn "err"].
+Definition deescalate_code : list dstmt :=
+  [DAssign "p" "d.PrivilegeLevels[target]"; DCall "d.Driver.Channel.SendInput(p.Deescalate)"; DReturn "err"].
 (* the option loops of the constructors (C19) *)
 Definition option_loops : list (string * dstmt) := [
   ("driver/generic/driver.go NewDriver",
